@@ -2079,3 +2079,292 @@ theorem uuidFromText_hex (bs : List Nat) (hl : bs.length = 16) (h : bytesOk bs) 
   rw [r1, r2, stripBraces_id _ hb, filter_none _ hy]
 
 end SpyneModel
+
+namespace SpyneModel
+set_option linter.unusedSimpArgs false
+set_option linter.unusedVariables false
+
+/-! ## `dt_format` / `date_format`: `strptime (strftime x) = x` over `%Y %m %d %H %M %S` -/
+
+/-- what `strptime` is expected to fill in: the fields the format mentions -/
+def applyFmt (f : Fields) : Fmt → Fields → Fields
+  | [], acc => acc
+  | .dir D :: rest, acc => applyFmt f rest (acc.set D (f.get D))
+  | .lit _ :: rest, acc => applyFmt f rest acc
+
+def Fields.inRange (f : Fields) : Prop :=
+  1 ≤ f.y ∧ f.y ≤ 9999 ∧ 1 ≤ f.m ∧ f.m ≤ 12 ∧ 1 ≤ f.d ∧ f.d ≤ 31 ∧ f.H < 24 ∧ f.M < 60 ∧ f.S < 60
+
+theorem yearText_pad4 (F : Facts08x) (y : Nat) (hpad : F.oldYearPad = .zero ∨ 1000 ≤ y) (hy : y ≤ 9999) :
+    yearText F y = pad4 y := by
+  unfold yearText
+  by_cases h : y > 1900
+  · simp [h]
+  · simp only [h, if_false]
+    rcases hpad with hp | hp
+    · rw [hp]
+    · cases hF : F.oldYearPad with
+      | zero => rfl
+      | space | other =>
+        simp only
+        -- four digits already: nothing to pad
+        have h4 : natText y = pad4 y := by
+          have e1 : natText y = natText (y / 10) ++ [digitChar (y % 10)] := by
+            rw [natText]; simp; omega
+          have e2 : natText (y / 10) = natText (y / 10 / 10) ++ [digitChar (y / 10 % 10)] := by
+            rw [natText]; simp; omega
+          have e3 : natText (y / 10 / 10) = natText (y / 10 / 10 / 10) ++ [digitChar (y / 10 / 10 % 10)] := by
+            rw [natText]; simp; omega
+          have e4 : natText (y / 10 / 10 / 10) = [digitChar (y / 10 / 10 / 10)] := by
+            rw [natText]; simp; omega
+          rw [e1, e2, e3, e4]
+          have a1 : y / 10 / 10 / 10 = y / 1000 := by omega
+          have a2 : y / 10 / 10 % 10 = y / 100 % 10 := by omega
+          simp [pad4, a1, a2]
+        rw [h4]; simp [pad4]
+
+theorem dirText_digits (F : Facts08x) (f : Fields) (hr : f.inRange) (hpad : F.oldYearPad = .zero ∨ 1000 ≤ f.y) (D : Dir) :
+    (dirText F f D).all isDigit = true ∧ dirValue D (dirText F f D) = some (f.get D) ∧
+    (∃ c t, dirText F f D = c :: t ∧ isDigit c = true) := by
+  obtain ⟨hy1, hy2, hm1, hm2, hd1, hd2, hH, hM, hS⟩ := hr
+  have p2 : ∀ n, n < 100 → (pad2 n).all isDigit = true ∧ (pad2 n).length = 2 ∧ valNat (pad2 n) = n ∧
+      (∃ c t, pad2 n = c :: t ∧ isDigit c = true) := by
+    intro n hn
+    have a : n / 10 < 10 := by omega
+    have b : n % 10 < 10 := by omega
+    refine ⟨by simp [pad2, isDigit_digitChar _ a, isDigit_digitChar _ b], by simp [pad2], ?_,
+      ⟨_, _, rfl, isDigit_digitChar _ a⟩⟩
+    simp [pad2, valNat, dval_digitChar _ a, dval_digitChar _ b]; omega
+  cases D with
+  | Y =>
+    simp only [dirText, yearText_pad4 F f.y hpad hy2, Fields.get]
+    refine ⟨pad4_all_digits _ (by omega), ?_, ⟨_, _, rfl, isDigit_digitChar _ (by omega)⟩⟩
+    simp [dirValue, pad4_length, valNat_pad4 f.y (by omega)]
+  | m =>
+    obtain ⟨a, b, c, d⟩ := p2 f.m (by omega)
+    refine ⟨a, ?_, d⟩
+    simp [dirText, Fields.get, dirValue, b, c, hm1, hm2]
+  | d =>
+    obtain ⟨a, b, c, d⟩ := p2 f.d (by omega)
+    refine ⟨a, ?_, d⟩
+    simp [dirText, Fields.get, dirValue, b, c, hd1, hd2]
+  | H =>
+    obtain ⟨a, b, c, d⟩ := p2 f.H (by omega)
+    refine ⟨a, ?_, d⟩
+    simp [dirText, Fields.get, dirValue, b, c]; omega
+  | M =>
+    obtain ⟨a, b, c, d⟩ := p2 f.M (by omega)
+    refine ⟨a, ?_, d⟩
+    simp [dirText, Fields.get, dirValue, b, c]; omega
+  | S =>
+    obtain ⟨a, b, c, d⟩ := p2 f.S (by omega)
+    refine ⟨a, ?_, d⟩
+    simp [dirText, Fields.get, dirValue, b, c]; omega
+
+/-- first character of what a well-formed format renders: never a blank after a blank, never a digit after a
+    directive -/
+theorem renderFmt_head (F : Facts08x) (f : Fields) (hr : f.inRange) (hpad : F.oldYearPad = .zero ∨ 1000 ≤ f.y)
+    (i : FmtItem) (rest : Fmt) :
+    ∃ c t, renderFmt F f (i :: rest) = c :: t ∧
+      (i.isLitNonDigit = true → isDigit c = false) ∧ (i.isSpaceLit = false → isPyUSpace c = false) := by
+  cases i with
+  | lit c => exact ⟨c, _, rfl, by simp [FmtItem.isLitNonDigit], by simp [FmtItem.isSpaceLit]⟩
+  | dir D =>
+    obtain ⟨_, _, c, t, hct, hc⟩ := dirText_digits F f hr hpad D
+    refine ⟨c, t ++ renderFmt F f rest, by simp [renderFmt, hct], by simp [FmtItem.isLitNonDigit], ?_⟩
+    intro _
+    exact digit_not_uspace c hc
+
+theorem strptime_render (F : Facts08x) (f : Fields) (hr : f.inRange) (hpad : F.oldYearPad = .zero ∨ 1000 ≤ f.y) :
+    ∀ (fmt : Fmt), fmt.wf = true → ∀ acc, strptimeFmt fmt (renderFmt F f fmt) acc = some (applyFmt f fmt acc) := by
+  intro fmt
+  induction fmt with
+  | nil => intro _ acc; simp [strptimeFmt, renderFmt, applyFmt]
+  | cons i rest ih =>
+    intro hwf acc
+    cases i with
+    | lit c =>
+      simp only [Fmt.wf, Bool.and_eq_true, Bool.not_eq_true', decide_eq_true_eq] at hwf
+      obtain ⟨⟨⟨hcd, hcp⟩, hsp⟩, hrest⟩ := hwf
+      simp only [renderFmt, applyFmt]
+      unfold strptimeFmt
+      by_cases hs : isPyUSpace c = true
+      · simp only [hs, if_true]
+        -- what follows is not a blank
+        have hdw : (c :: renderFmt F f rest).dropWhile isPyUSpace = renderFmt F f rest := by
+          simp only [List.dropWhile, hs]
+          cases rest with
+          | nil => simp [renderFmt]
+          | cons j rest' =>
+            simp only [hs, Bool.true_and] at hsp
+            obtain ⟨c', t, hct, _, hns⟩ := renderFmt_head F f hr hpad j rest'
+            rw [hct]
+            exact dropWhile_head_false c' t (hns hsp)
+        rw [hdw]
+        exact ih hrest acc
+      · simp only [hs, if_false]
+        exact ih hrest acc
+    | dir D =>
+      simp only [Fmt.wf, Bool.and_eq_true, Bool.not_eq_true'] at hwf
+      obtain ⟨⟨hnext, _⟩, hrest⟩ := hwf
+      obtain ⟨hdig, hval, c, t, hct, hc⟩ := dirText_digits F f hr hpad D
+      simp only [renderFmt, applyFmt]
+      unfold strptimeFmt
+      have hskip : skipDaySpace D (dirText F f D ++ renderFmt F f rest) = dirText F f D ++ renderFmt F f rest := by
+        have hne : c ≠ ' ' := by intro e; subst e; simp [isDigit] at hc
+        rw [hct]
+        unfold skipDaySpace
+        cases D <;> (try rfl)
+        cases hh : (t ++ renderFmt F f rest) with
+        | nil => simp [hh]
+        | cons x r => simp [hh, hne]
+      rw [hskip]
+      have hsp : spanDigits (dirText F f D ++ renderFmt F f rest) = (dirText F f D, renderFmt F f rest) := by
+        apply spanDigits_all _ hdig
+        intro c' r' hcr
+        cases rest with
+        | nil => simp [renderFmt] at hcr
+        | cons j rest' =>
+          simp only at hnext
+          obtain ⟨c'', t'', hct'', hnd, _⟩ := renderFmt_head F f hr hpad j rest'
+          rw [hct''] at hcr
+          simp at hcr
+          rw [← hcr.1]
+          exact hnd hnext
+      simp only [hsp, hval]
+      exact ih hrest _
+
+end SpyneModel
+
+namespace SpyneModel
+set_option linter.unusedSimpArgs false
+set_option linter.unusedVariables false
+
+theorem Fields.get_set (a : Fields) (D D' : Dir) (v : Nat) :
+    (a.set D v).get D' = if D = D' then v else a.get D' := by
+  cases D <;> cases D' <;> simp [Fields.set, Fields.get]
+
+theorem applyFmt_get (f : Fields) : ∀ (fmt : Fmt) (acc : Fields) (D : Dir),
+    (applyFmt f fmt acc).get D = if fmt.contains (.dir D) then f.get D else acc.get D := by
+  intro fmt
+  induction fmt with
+  | nil => intro acc D; simp [applyFmt]
+  | cons i rest ih =>
+    intro acc D
+    cases i with
+    | lit c => simp [applyFmt, ih]
+    | dir D' =>
+      by_cases h2 : D' = D
+      · subst h2; simp [applyFmt, ih, Fields.get_set]
+      · have h3 : ¬ (D = D') := fun e => h2 e.symm
+        simp [applyFmt, ih, Fields.get_set, h2, h3]
+
+theorem Fields.ext_get (a b : Fields) (h : ∀ D, a.get D = b.get D) : a = b := by
+  have hY := h .Y; have hm := h .m; have hd := h .d; have hH := h .H; have hM := h .M; have hS := h .S
+  cases a; cases b
+  simp [Fields.get] at hY hm hd hH hM hS
+  simp [hY, hm, hd, hH, hM, hS]
+
+def Fmt.hasAll (fmt : Fmt) (ds : List Dir) : Bool := ds.all (fun D => fmt.contains (.dir D))
+
+theorem applyFmt_all (f : Fields) (fmt : Fmt) (acc : Fields)
+    (h : fmt.hasAll [.Y, .m, .d, .H, .M, .S] = true) : applyFmt f fmt acc = f := by
+  simp [Fmt.hasAll] at h
+  apply Fields.ext_get
+  intro D
+  rw [applyFmt_get]
+  cases D <;> simp [h]
+
+theorem fieldsOf_inRange (d : Date) (t : Time) (hd : d.valid = true) (ht : t.valid = true) :
+    (fieldsOf d t).inRange ∧ (fieldsOf d t).validDT = true := by
+  have hd' := hd
+  have ht' := ht
+  simp [Date.valid] at hd'
+  simp [Time.valid] at ht'
+  obtain ⟨⟨⟨⟨⟨hy1, hy2⟩, hm1⟩, hm2⟩, hd1⟩, hd2⟩ := hd'
+  obtain ⟨⟨⟨hh, hmi⟩, hs⟩, hus⟩ := ht'
+  have hd3 := Nat.le_trans hd2 (daysInMonth_le _ _)
+  refine ⟨⟨hy1, hy2, hm1, hm2, hd1, hd3, hh, hmi, hs⟩, ?_⟩
+  obtain ⟨y, m, dd⟩ := d
+  obtain ⟨h, mi, s, us⟩ := t
+  simp only [fieldsOf, Fields.validDT, Bool.and_eq_true]
+  exact ⟨hd, by simp [Time.valid]; simp at hh hmi hs; omega⟩
+
+/-- `DateTime(dt_format=fmt)`: what is written is read back as the same wall clock, to the second
+    (`%f` and `%z` are outside the modelled directives: microseconds and offset are not written) -/
+theorem dateTimeFromTextFmt_render (F : Facts08x) (fmt : Fmt) (hwf : fmt.wf = true)
+    (hall : fmt.hasAll [.Y, .m, .d, .H, .M, .S] = true) (x : DateTime) (hx : x.valid = true)
+    (hpad : F.oldYearPad = .zero ∨ 1000 ≤ x.date.y) :
+    dateTimeFromTextFmt F fmt none (renderFmt F (fieldsOf x.date x.time) fmt) =
+      .ok ⟨x.date, ⟨x.time.h, x.time.mi, x.time.s, 0⟩, none⟩ := by
+  simp [DateTime.valid] at hx
+  obtain ⟨⟨hd, ht⟩, _⟩ := hx
+  obtain ⟨hr, hv⟩ := fieldsOf_inRange x.date x.time hd ht
+  unfold dateTimeFromTextFmt
+  rw [strptime_render F _ hr hpad fmt hwf, applyFmt_all _ fmt _ hall]
+  simp only [hv, if_true]
+  rfl
+
+/-- …with `as_timezone` on top (a value converted to the zone `o` first): the zone is put back on -/
+theorem dateTimeFromTextFmt_render_astz (F : Facts08x) (hF : F.fmtAsTz = .replace) (fmt : Fmt) (hwf : fmt.wf = true)
+    (hall : fmt.hasAll [.Y, .m, .d, .H, .M, .S] = true) (x1 : DateTime) (o : Int) (hx : x1.valid = true)
+    (hpad : F.oldYearPad = .zero ∨ 1000 ≤ x1.date.y) :
+    dateTimeFromTextFmt F fmt (some o) (renderFmt F (fieldsOf x1.date x1.time) fmt) =
+      .ok ⟨x1.date, ⟨x1.time.h, x1.time.mi, x1.time.s, 0⟩, some o⟩ := by
+  simp [DateTime.valid] at hx
+  obtain ⟨⟨hd, ht⟩, _⟩ := hx
+  obtain ⟨hr, hv⟩ := fieldsOf_inRange x1.date x1.time hd ht
+  unfold dateTimeFromTextFmt
+  rw [strptime_render F _ hr hpad fmt hwf, applyFmt_all _ fmt _ hall]
+  simp only [hv, if_true, hF]
+  rfl
+
+/-- `Date(date_format=fmt)` -/
+theorem dateFromTextFmt_render (F : Facts08x) (G : Facts08) (fmt : Fmt) (hwf : fmt.wf = true)
+    (hall : fmt.hasAll [.Y, .m, .d] = true) (x : Date) (hx : x.valid = true)
+    (hpad : F.oldYearPad = .zero ∨ 1000 ≤ x.y) :
+    dateFromTextFmt G fmt (dateToTextFmt F false fmt x) = .ok x := by
+  have ht0 : Time.valid ⟨0, 0, 0, 0⟩ = true := by decide
+  obtain ⟨hr, hv⟩ := fieldsOf_inRange x ⟨0, 0, 0, 0⟩ hx ht0
+  unfold dateFromTextFmt dateToTextFmt
+  simp only [Bool.false_and, Bool.false_eq_true, if_false]
+  rw [strptime_render F _ hr hpad fmt hwf]
+  simp [Fmt.hasAll] at hall
+  generalize hff : fieldsOf x ⟨0, 0, 0, 0⟩ = ff
+  have fy : ff.y = x.y := by rw [← hff]; rfl
+  have fm : ff.m = x.m := by rw [← hff]; rfl
+  have fd : ff.d = x.d := by rw [← hff]; rfl
+  have fH : ff.H = 0 := by rw [← hff]; rfl
+  have fM : ff.M = 0 := by rw [← hff]; rfl
+  have fS : ff.S = 0 := by rw [← hff]; rfl
+  have gY : (applyFmt ff fmt {}).y = x.y := by
+    have := applyFmt_get ff fmt {} .Y; simp [Fields.get, hall] at this; rw [this, fy]
+  have gm : (applyFmt ff fmt {}).m = x.m := by
+    have := applyFmt_get ff fmt {} .m; simp [Fields.get, hall] at this; rw [this, fm]
+  have gd : (applyFmt ff fmt {}).d = x.d := by
+    have := applyFmt_get ff fmt {} .d; simp [Fields.get, hall] at this; rw [this, fd]
+  have eH : (applyFmt ff fmt {}).H = 0 := by
+    have := applyFmt_get ff fmt {} .H; simp only [Fields.get, fH] at this; rw [this]; split <;> rfl
+  have eM : (applyFmt ff fmt {}).M = 0 := by
+    have := applyFmt_get ff fmt {} .M; simp only [Fields.get, fM] at this; rw [this]; split <;> rfl
+  have eS : (applyFmt ff fmt {}).S = 0 := by
+    have := applyFmt_get ff fmt {} .S; simp only [Fields.get, fS] at this; rw [this]; split <;> rfl
+  have hvd : (applyFmt ff fmt {}).validDT = true := by
+    simp only [Fields.validDT, gY, gm, gd, eH, eM, eS, Bool.and_eq_true]
+    obtain ⟨y, m, d⟩ := x
+    exact ⟨hx, by decide⟩
+  simp only [hvd, if_true, gY, gm, gd]
+
+end SpyneModel
+
+namespace SpyneModel
+
+/-- every textual `serialize_as` form of a Uuid is read back -/
+theorem uuidFromText_uuidToTextAs (form : UuidForm) (bs : List Nat) (hl : bs.length = 16) (h : bytesOk bs) :
+    uuidFromText (uuidToTextAs form bs) = .ok bs := by
+  cases form with
+  | canonical => exact uuidFromText_uuidToText bs hl h
+  | hex => exact uuidFromText_hex bs hl h
+  | urn => exact uuidFromText_urn bs hl h
+
+end SpyneModel
